@@ -13,7 +13,10 @@ pub mod c13;
 pub mod c14;
 pub mod c15;
 pub mod c16;
+pub mod c17;
 pub mod c18;
+pub mod c19;
+pub mod c20;
 pub mod safety_uni;
 use crate::model::uni::Policy;
 
@@ -35,12 +38,20 @@ pub fn by_id(id: &str) -> Option<Box<dyn Monitor>> {
         "C14" => Box::new(c14::C14),
         "C15" => Box::new(c15::C15),
         "C16" => Box::new(c16::C16),
+        "C17" => Box::new(c17::C17),
         "C18" => Box::new(c18::C18),
+        "C19" => Box::new(c19::C19),
+        "C20" => Box::new(c20::C20),
         _ => return None,
     })
 }
 
 /// Entry points that are not plain monitors (sub-process workers etc.).
-pub fn special(_id: &str, _extra: &[String], _tier: Tier, _seed: u64, _verif_dir: &str) -> Option<i32> {
-    None
+pub fn special(id: &str, _extra: &[String], _tier: Tier, seed: u64, _verif_dir: &str, cases: Option<u64>) -> Option<i32> {
+    match id {
+        "C20-WORKER" => Some(c20::worker(seed, cases.unwrap_or(1000))),
+        "C13-MIRI" => Some(c13::miri_lite(seed)),
+        "C14-MIRI" => Some(c14::miri_lite(seed)),
+        _ => None,
+    }
 }
